@@ -979,6 +979,9 @@ func runManagerWitness(rep *vh.Report, sc MScenario) {
 				out["diverged"] = fmt.Sprintf("step %d %s(%s): real result %s, unfixed model %s", i, st.A.Act, st.A.Arg, ret, st.A.Ret)
 				return
 			}
+			if rm.waiter != nil && rm.waiter.got == nil && i+1 < len(sc.Steps) && sc.Steps[i+1].A.Act == "wake" {
+				continue // the blocked call reacts on its own right now: the state is compared after the wake step
+			}
 			if !sameState(st.T, post, false) {
 				out["diverged"] = fmt.Sprintf("step %d after %s(%s): %s", i, st.A.Act, st.A.Arg, diffMState(st.T, post))
 				return
